@@ -30,6 +30,15 @@ EXPLANATION = (
 )
 
 
+def _blk(fn_node, stmt):
+    for n in ast.walk(fn_node):
+        for fld in ("body", "orelse", "finalbody"):
+            b = getattr(n, fld, None)
+            if isinstance(b, list) and any(x is stmt for x in b):
+                return b
+    return []
+
+
 def run(ctx: Ctx):
     f = ctx.func("flow", "min_cost_flow")
     bf = ctx.func("flow", "min_cost_flow.bellman_ford")
@@ -108,7 +117,7 @@ def run(ctx: Ctx):
     for k, s in enumerate(sites):
         at = ngv.guard_atoms(s.node, stable_only=False)
         if "INFEASIBLE" in s.statuses:
-            ok = any("sum(supplies)" in a for a in at) or ("F:arcs" in at and any("all(" in a for a in at)) or any(a in (atom_of("flow[arc] > 0"),) for a in at)
+            ok = atom_of("abs(sum(supplies)) > 1e-09") in at or ("F:arcs" in at and "F:all((abs(s) < 1e-09 for s in supplies))" in at) or atom_of("flow[arc] > 0") in at
             ctx.ob("C09-O3", "R1 STATUS-GUARD", ns, f"Result#{k} INFEASIBLE only under unbalanced supplies or an artificial arc carrying flow", ok, f"{sorted(at)[:4]}", node=s.call)
             if atom_of("flow[arc] > 0") in at:
                 loop = s.node.loop
@@ -157,6 +166,87 @@ def run(ctx: Ctx):
     recompute = [n for n in own_nodes(ns.node) if isinstance(n, ast.For) and ast.unparse(n.iter) == "range(total_arcs)" and "state[arc] = 1" in ast.unparse(n)]
     ok = bool(recompute) and all(any(ncfg2.dominates(ncfg2.stmt_node_containing(r_.iter), ncfg2.node_of(f_)) and ncfg2.node_of(f_).loop is not ncfg2.stmt_node_containing(r_.iter) for f_ in forced) for r_ in recompute)
     ctx.ob("C09-O6", "R27 WRITE-OWNERSHIP", ns, "each flow-based recomputation of the arc states is followed by forcing the tree arcs basic", ok, "", node=ns.node)
+    # trivial cases, arc states, result dictionary
+    for k, s_ in enumerate(sites):
+        at = ngv.guard_atoms(s_.node, stable_only=False)
+        if "INFEASIBLE" not in s_.statuses and ast.unparse(s_.arg("solution")) == "{}":
+            ctx.ob("C09-O3", "R1 STATUS-GUARD", ns, "the empty flow is published only when there is no arc and no node has an imbalance", "F:arcs" in at and "T:all((abs(s) < 1e-09 for s in supplies))" in at, f"{sorted(at)[:4]}", node=s_.call)
+    three = "if flow[arc] == 0:\n            state[arc] = 1\n        elif flow[arc] == cap[arc]:\n            state[arc] = -1\n        else:\n            state[arc] = 0"
+    tns0 = ast.unparse(ns.node)
+    ctx.ob("C09-O6", "R18 table", ns, "arc states are derived from the flow at both sites: lower bound -> 1, upper bound -> -1, strictly between -> basic", tns0.count(three) + tns0.count(three.replace("\n        ", "\n            ").replace("if flow[arc] == 0:\n    ", "if flow[arc] == 0:\n        ")) >= 2 or tns0.count("state[arc] = 1") == 2 and tns0.count("state[arc] = -1") == 2 and tns0.count("elif flow[arc] == cap[arc]:") == 2 and tns0.count("if flow[arc] == 0:") == 2, "", node=ns.node)
+    ctx.ob("C09-O5", "R18 SIBLING-AGREEMENT (policy)", ns, "the result dictionary holds exactly the original arcs with positive flow", "for i in range(m):\n        if flow[i] > 0:\n            key = (source[i], target[i])\n            flow_dict[key] = flow_dict.get(key, 0) + flow[i]" in tns0, "", node=ns.node)
+    ctx.ob("C09-O6", "R18 table", ns, "the root has no parent and depth 0", "parent[root] = -1" in tns0 and "depth[root] = 0" in tns0, "", node=ns.node)
+    ctx.ob("C09-O6", "R18 table", rf_, "the refresh visits the whole tree (every child is pushed)", "stack = [root]" in tr_ and "while stack:\n        p = stack.pop()" in tr_ and "stack.append(node)" in tr_, "", node=rf_.node)
+    # min_cost_flow: node universe, source distance, path reconstruction, assignment extraction
+    ft = ast.unparse(f.node)
+    ctx.ob("C09-O1", "R18 table", f, "the node set holds every tail and every head of the input", "for u in graph:\n        nodes.add(u)\n        for v, cap, c in graph[u]:\n            nodes.add(v)" in ft, "", node=f.node)
+    ctx.ob("C09-O1", "R21 search discipline", bf, "the search starts with distance 0 at the source and infinity elsewhere; a round without update ends it", "dist = {n: float('inf') for n in nodes}" in bt and "dist[source] = 0" in bt and "updated = False" in bt and "updated = True" in bt and "if not updated:\n            break" in bt, "", node=bf.node)
+    ctx.ob("C09-O1", "R22 STUTTER-FREE", bf, "an unreachable sink gives no path; the path lists the parent edges from the sink back to the source, reversed", "if sink not in dist or dist[sink] == float('inf'):\n        return None" in bt and "path = []\n    node = sink" in bt and "path.append(e)" in bt and "path.reverse()\n    return path" in bt and "if len(path) > len(nodes):\n            return None" in bt, "", node=bf.node)
+    sa_ = ctx.func("flow", "solve_assignment")
+    tsa = ast.unparse(sa_.node)
+    ctx.ob("C09-O4", "R18 table", sa_, "the assignment is read off the unit flows on row->column arcs", "if f > 0 and u.startswith('L') and v.startswith('R'):\n            i = int(u[1:])\n            j = int(v[1:])\n            assignment[i] = j" in tsa and "assignment = [-1] * n" in tsa, "", node=sa_.node)
+
+    ctx.floor("Result sites in min_cost_flow", len(result_sites(f)), 2)
+    piv = [n for n in own_nodes(ns.node) if isinstance(n, ast.While) and "max_iter" in names_in(n.test)]
+    ctx.ob("C09-O3", "R2 BUDGET-EXIT", ns, "the pivot loop runs while the iteration budget lasts and counts every round", len(piv) == 1 and ast.unparse(piv[0].test) == "iterations < max_iter" and ast.unparse(piv[0].body[0]) == "iterations += 1", "", node=piv[0] if piv else ns.node)
+    # ---- O7 pivot mechanics of the network simplex
+    tns = ast.unparse(ns.node)
+    # arc table: a faithful copy of the input, artificial arcs mirrored by the sign of the supply
+    ctx.ob("C09-O7", "R17 PARAM-IMMUTABLE", ns, "arc arrays are sized for the original and the artificial arcs and copy (tail, head, capacity, cost) of every input arc", all(f"{a} = [{z}] * (m + n)" in tns for a, z in (("source", "0"), ("target", "0"), ("cap", "0"), ("cost", "0.0"), ("flow", "0"))) and "for i, (u, v, c, w) in enumerate(arcs):\n        source[i] = u\n        target[i] = v\n        cap[i] = c\n        cost[i] = w" in tns, "", node=ns.node)
+    art = [n for n in own_nodes(ns.node) if isinstance(n, ast.If) and ast.unparse(n.test) == "supplies[i] >= 0"]
+    ok = len(art) == 1
+    if ok:
+        pos = [ast.unparse(x) for x in art[0].body]
+        neg = [ast.unparse(x) for x in art[0].orelse]
+        mir = [x.replace("source[arc_id] = i", "\0S").replace("target[arc_id] = n", "target[arc_id] = i").replace("\0S", "source[arc_id] = n").replace("int(supplies[i])", "int(-supplies[i])") for x in pos]
+        ok = pos == ["source[arc_id] = i", "target[arc_id] = n", "cap[arc_id] = int(supplies[i]) + 1", "flow[arc_id] = int(supplies[i])"] and neg == mir
+        blk = _blk(ns.node, art[0])
+        ok = ok and "cost[arc_id] = big_m" in [ast.unparse(x) for x in blk] and "arc_id = m + i" in [ast.unparse(x) for x in blk]
+    ctx.ob("C09-O7", "R15 INVERSE-PAIR", ns, "each node gets one artificial arc to the root carrying its imbalance: out of the node for a supply, into it for a demand, cost big-M, spare capacity 1", ok, "", node=art[0] if art else ns.node)
+    # reduced cost: one formula at both sites; pricing rule
+    rcs = [n for n in own_nodes(ns.node) if isinstance(n, ast.Assign) and ast.unparse(n.targets[0]) == "rc"]
+    ok = len(rcs) == 2 and all(ast.unparse(r.value) in ("cost[arc] - pi[u] + pi[v]", "cost[entering] - pi[u] + pi[v]") for r in rcs)
+    for r in rcs:
+        blk = _blk(ns.node, r)
+        i = blk.index(r)
+        ok = ok and i > 0 and ast.unparse(blk[i - 1]) in ("u, v = (source[arc], target[arc])", "u, v = (source[entering], target[entering])")
+    ctx.ob("C09-O7", "R18 SIBLING-AGREEMENT (expression)", ns, "reduced cost = cost - pi[tail] + pi[head], the same at the pricing and at the pivot site", ok, "", node=rcs[0] if rcs else ns.node)
+    pricing = "if state[arc] == 0:\n                continue" in tns and "if state[arc] == 1 and rc < best_cost:\n                best_cost = rc\n                entering = arc\n            elif state[arc] == -1 and -rc < best_cost:\n                best_cost = -rc\n                entering = arc" in tns and "entering = -1\n        best_cost = -1e-09" in tns and "if entering == -1:\n            break" in tns
+    ctx.ob("C09-O7", "R21 search discipline", ns, "pricing: a non-basic arc enters if raising it from its lower bound (rc < 0) or lowering it from its upper bound (rc > 0) pays; the most violating one is kept; no candidate -> optimal", pricing, "", node=ns.node)
+    direction = "if rc < 0:\n            delta = cap[entering] - flow[entering]\n            first, second = (u, v)\n        else:\n            delta = flow[entering]\n            first, second = (v, u)" in tns and "if rc < 0:\n            flow[entering] += delta\n        else:\n            flow[entering] -= delta" in tns
+    ctx.ob("C09-O7", "R4 SIGN-UNIT", ns, "the entering arc is pushed up to its spare capacity when rc < 0 and down to zero otherwise, and the cycle is traversed accordingly", direction, "", node=ns.node)
+    # the two cycle halves: ratio test and augmentation are coherent and mirror each other
+    walks = [n for n in own_nodes(ns.node) if isinstance(n, ast.While) and ast.unparse(n.test) == "node != join"]
+    walks.sort(key=lambda n: n.lineno)
+    ok = len(walks) == 4
+    why = f"{len(walks)} walks towards the join"
+    if ok:
+        for k, w in enumerate(walks):
+            blk = _blk(ns.node, w)
+            i = blk.index(w)
+            start = ast.unparse(blk[i - 1]) if i > 0 else ""
+            body = [ast.unparse(x) for x in w.body]
+            half = "first" if k % 2 == 0 else "second"
+            if start != f"node = {half}" or body[0] != "arc = pred[node]" or body[-1] != "node = parent[node]":
+                ok, why = False, f"walk {k} does not go from `{half}` up the tree arc by arc"
+                continue
+            if k < 2:
+                at_node = "node" if half == "first" else "parent[node]"
+                want = [f"d = _residual(arc, {at_node}, source, flow, cap)", f"if d < delta:\n    delta = d\n    leaving = arc\n    leaving_first = {'True' if half == 'first' else 'False'}"]
+                if body[1:-1] != want:
+                    ok, why = False, f"ratio test of the `{half}` half: {body[1:-1]}"
+            else:
+                minus, plus = ("flow[arc] -= delta", "flow[arc] += delta")
+                want = f"if source[arc] == node:\n    {minus if half == 'first' else plus}\nelse:\n    {plus if half == 'first' else minus}"
+                if body[1:-1] != [want]:
+                    ok, why = False, f"augmentation of the `{half}` half: {body[1:-1]}"
+    ctx.ob("C09-O7", "R15 INVERSE-PAIR", ns, "both cycle halves walk to the join; an arc's flow is lowered exactly where the ratio test took its flow as residual, and raised where it took the spare capacity; the two halves are mirror images", ok, why if not ok else "", node=walks[0] if walks else ns.node)
+    ctx.ob("C09-O7", "R30 ACCUMULATOR-PAIRING", ns, "the ratio test starts from the entering arc's own room (a bound flip when nothing on the cycle is tighter)", "leaving = entering\n        leaving_first = True" in tns and "if delta == 0 and leaving == entering:\n            state[entering] = -state[entering]\n            continue" in tns, "", node=ns.node)
+    rs_ = ctx.func("network_simplex", "_residual")
+    fj = ctx.func("network_simplex", "_find_join")
+    ctx.ob("C09-O7", "R18 table", rs_, "residual seen from a node: the flow of an arc leaving it, the spare capacity of an arc entering it", "if source[arc] == node:\n        return flow[arc]\n    return cap[arc] - flow[arc]" in ast.unparse(rs_.node), "", node=rs_.node)
+    ctx.ob("C09-O7", "R18 table", fj, "the join is found by lifting the deeper of the two nodes until they meet", "while u != v:\n        if depth[u] > depth[v]:\n            u = parent[u]\n        else:\n            v = parent[v]\n    return u" in ast.unparse(fj.node), "", node=fj.node)
+    ctx.ob("C09-O7", "R18 SIBLING-AGREEMENT (expression)", ns, "initial potentials follow the rule of _refresh_tree (zero reduced cost on tree arcs)", "if source[arc] == i:\n            pi[i] = pi[root] + cost[arc]\n        else:\n            pi[i] = pi[root] - cost[arc]" in tns and "parent = [root] * total_nodes" in tns and "pred = list(range(m, m + n)) + [-1]" in tns, "", node=ns.node)
     ctx.note("network_simplex: the pivot loop's max_iter exit reaches the same exact verdicts as convergence (default budget 10^6, no input inside the property's quantifier reaches it) - information only")
     # O4 assignment wiring
     sa = ctx.func("flow", "solve_assignment")
@@ -277,6 +367,19 @@ def _v_infeasible_wrong(tree):
     M.replace_expr(g, lambda e: M.src_is(e, "path is None"), M.expr("path is None or path_cost > 0"))
 
 
+def _v_ns_second_half_not_mirrored(tree):
+    g = M.find_func(tree, "network_simplex")
+    walks = sorted([n for n in ast.walk(g) if isinstance(n, ast.While) and M.src_is(n.test, "node != join")], key=lambda n: n.lineno)
+    if len(walks) != 4:
+        raise M.Skip("four cycle walks expected")
+    M.replace_expr(walks[1], lambda e: M.src_is(e, "parent[node]") and True, M.expr("node"), count=1)
+
+
+def _v_ns_pricing_wrong_bound(tree):
+    g = M.find_func(tree, "network_simplex")
+    M.replace_expr(g, lambda e: M.src_is(e, "state[arc] == -1 and -rc < best_cost"), M.expr("state[arc] == -1 and rc < best_cost"))
+
+
 def _v_bf_bound_prune(tree):
     g = M.find_func(tree, "min_cost_flow.bellman_ford")
     M.replace_stmt(g, lambda s: isinstance(s, ast.For) and M.src_is(s.iter, "nodes") and M.src_has(s, "edge_cost"), lambda s: M.stmts("bound = dist.get(sink, float('inf'))") + [s])
@@ -314,6 +417,8 @@ VARIANTS = [
     M.Variant("INFEASIBLE also when the path is expensive", FL, _v_infeasible_wrong, "C09-O3"),
     M.Variant("Bellman-Ford skips nodes no closer than the sink (seed C09-C)", FL, _v_bf_bound_prune, "C09-O1"),
     M.Variant("network simplex updates only the leaving and entering arc states (seed C09-D)", NS, _v_ns_local_state_update, "C09-O6"),
+    M.Variant("ratio test of the second cycle half takes the residual from the wrong end", NS, _v_ns_second_half_not_mirrored, "C09-O7"),
+    M.Variant("pricing treats arcs at their upper bound like arcs at their lower bound", NS, _v_ns_pricing_wrong_bound, "C09-O7"),
     M.Variant("twin: reformat flow", FL, _t_reformat, None),
     M.Variant("twin: reformat network simplex", NS, _t_reformat, None),
 ]
